@@ -23,10 +23,13 @@ import (
 	"time"
 
 	"github.com/go-critic/go-critic/checkers/rulesdata"
+	"github.com/go-critic/go-critic/linter"
+	"github.com/quasilyte/go-ruleguard/ruleguard/ir"
 
 	"verifharness/internal/common"
 	"verifharness/internal/coqfmt"
 	"verifharness/internal/exprgen"
+	"verifharness/internal/valdiff"
 )
 
 func Run(tier string, seed int64, outDir string) *common.Meta {
@@ -40,6 +43,8 @@ func Run(tier string, seed int64, outDir string) *common.Meta {
 	runNilValReturn(meta, seed, outDir)
 	runRuleTable(meta, outDir)
 	runShadowed(meta, seed, outDir)
+	runSynthClaims(meta, outDir)
+	runCaseOrderGeneric(meta, outDir)
 	meta.Rule = "distinct_nontrivial = number of distinct generated expressions / type switches on which at least one of the claim-producing checkers fired (each compared with the model matcher in Coq and executed with instrumentation)"
 	return meta
 }
@@ -52,6 +57,8 @@ type exprCase struct {
 	term string
 	msgs map[string][]string // checker -> messages (emission order)
 }
+
+type constProbe struct{ msg, text, want string }
 
 var claimCheckers = []string{"sloppyLen", "badCond", "offBy1", "dupSubExpr", "dupArg"}
 
@@ -67,7 +74,26 @@ func genClaimExpr(g *exprgen.G, r interface{ Intn(int) int }) string {
 		return pick("0", "1", "2", "5", "7", "9", "10", "-3", "2 - 1", "(4)", "3 + 4", "0x10", "010")
 	}
 	var e string
-	switch n := r.Intn(100); {
+	switch n := r.Intn(108); {
+	case n >= 100: // bound pairs on an operand that a conjunct in between can change
+		type mo struct{ x, mut string }
+		m := []mo{{"w.avail", "w.refill()"}, {"gn", "bumpG()"}, {"a", "func() bool { a = 9; return true }()"},
+			{"xs[0]", "func() bool { if len(xs) > 0 { xs[0] = 9 }; return true }()"}, {"b", "func() bool { b--; return true }()"}}[r.Intn(5)]
+		lo, hi := pick("<", "<", "<="), pick(">", ">", ">=")
+		base := []int{0, 1, 2, 5}[r.Intn(4)]
+		d := []int{1, 2, 5, 6, 0, -1}[r.Intn(6)]
+		mid := pick(m.mut, m.mut, "k", "fb()")
+		l, rr := m.x+" "+lo+" "+strconv.Itoa(base), m.x+" "+hi+" "+strconv.Itoa(base+d)
+		switch r.Intn(4) {
+		case 0:
+			e = l + " && " + mid + " && " + rr
+		case 1:
+			e = l + " && (" + mid + " && " + rr + ")"
+		case 2:
+			e = "(" + l + " && " + mid + ") && " + rr
+		default:
+			e = l + " && " + pick("k", "l") + " && " + mid + " && " + rr
+		}
 	case n < 22: // sloppyLen
 		x := pick("s", "xs", "bs", "t", "fs()", "fxs()", "s + t", "xs[:]", "[]byte(s)", "string(bs)", "ms", "mi", "mm", "ma", "pa", "w.buf")
 		e = "len(" + x + ") " + pick(">= 0", "< 0", ">= 0", "< 0", "<= 0", ">= 1", "> 0", "< 1", ">= 00", "< 0x0", "== 0") + ""
@@ -112,6 +138,12 @@ func genClaimExpr(g *exprgen.G, r interface{ Intn(int) int }) string {
 				x2 = intX()
 			}
 		}
+		if !isF && r.Intn(2) == 0 {
+			// operands that a call can change: a struct field, a package variable, a slice element, a local
+			// captured by a closure
+			x = pick("w.avail", "gn", "xs[0]", "a", "w.avail")
+			x2 = x
+		}
 		l, rr := x+" "+o1+" "+c1, x2+" "+o2+" "+c2
 		if r.Intn(6) == 0 {
 			l = "(" + l + ")"
@@ -120,6 +152,26 @@ func genClaimExpr(g *exprgen.G, r interface{ Intn(int) int }) string {
 			rr = "(" + rr + ")"
 		}
 		e = l + " && " + rr
+		if r.Intn(3) == 0 {
+			// chains of three and more conjuncts: pure, impure and MUTATING conjuncts between (and around) the
+			// two comparisons; a mutating conjunct preferably changes the very operand that is compared
+			mutators := map[string]string{"w.avail": "w.refill()", "gn": "bumpG()", "a": "func() bool { a = 9; return true }()",
+				"xs[0]": "func() bool { if len(xs) > 0 { xs[0] = 9 }; return true }()"}
+			mid := pick("k", "fb()", "a > b", "w.refill()", "bumpG()", "func() bool { a = 9; return true }()")
+			if mu, ok := mutators[x]; ok && x == x2 && r.Intn(3) > 0 {
+				mid = mu
+			}
+			switch r.Intn(4) {
+			case 0:
+				e = l + " && " + mid + " && " + rr
+			case 1:
+				e = l + " && (" + mid + " && " + rr + ")"
+			case 2:
+				e = mid + " && " + l + " && " + rr
+			default:
+				e = l + " && " + mid + " && " + pick("k", "l", "fb()") + " && " + rr
+			}
+		}
 	case n < 65: // offBy1
 		// indexed operands of every kind: slices, strings, defined slice/string/map types, arrays and
 		// pointers to arrays (rejected by the type checker when the index is a constant out of range),
@@ -424,6 +476,16 @@ func runExprClaims(meta *common.Meta, seed int64, outDir string, n int) {
 		}
 		dc.Inputs = exprgen.Grid(rg, text, 120)
 		dcs = append(dcs, dc)
+		if b, ok := node.(*ast.BinaryExpr); ok && f.checker == "dupSubExpr" && !impureCallRe.MatchString(text) {
+			switch b.Op {
+			case token.EQL, token.NEQ, token.LSS, token.GTR, token.LEQ, token.GEQ:
+				// a comparison of an operand with itself is reported because it is pointless, i.e. constant:
+				// observe whether it takes both truth values (the x != x NaN idiom)
+				for _, want := range []string{"true", "false"} {
+					dcs = append(dcs, &exprgen.DiffCase{ID: len(dcs), Kind: "expr", Orig: text, Expect: want, Inputs: dc.Inputs, Tag: constProbe{f.text, text, want}})
+				}
+			}
+		}
 	}
 	mm, evals, err := exprgen.RunDiff(filepath.Join(outDir, "obs_expr"), dcs)
 	if err != nil {
@@ -432,10 +494,34 @@ func runExprClaims(meta *common.Meta, seed int64, outDir string, n int) {
 	meta.Evaluations += evals
 	meta.Distribution["expr_instrumented_evaluations"] = evals
 	sort.SliceStable(mm, func(i, j int) bool { return len(mm[i].Case.Orig) < len(mm[j].Case.Orig) })
+	// comparisons of an operand with itself that are not constant
+	notTrue, notFalse := map[string]exprgen.Mismatch{}, map[string]exprgen.Mismatch{}
 	for _, m := range mm {
+		if cp, ok := m.Case.Tag.(constProbe); ok {
+			if cp.want == "true" {
+				notTrue[cp.text] = m
+			} else {
+				notFalse[cp.text] = m
+			}
+		}
+	}
+	for text, m1 := range notTrue {
+		if m2, ok := notFalse[text]; ok {
+			cp := m1.Case.Tag.(constProbe)
+			meta.Fail("C12/dupSubExpr/self-comparison-not-constant",
+				fmt.Sprintf("dupSubExpr reports %q on `%s`, which is the NaN test of a float operand the exemption does not recognise: it evaluates to %s and to %s", cp.msg, text, m1.Orig, m2.Orig),
+				map[string]interface{}{"expr": text, "message": cp.msg, "input_a": m1.Input, "value_a": m1.Orig, "input_b": m2.Input, "value_b": m2.Orig})
+		}
+	}
+	for _, m := range mm {
+		if _, ok := m.Case.Tag.(constProbe); ok {
+			continue
+		}
 		f := m.Case.Tag.(flagged)
 		class := "unclassified"
-		if impureCallRe.MatchString(m.Case.Orig) {
+		if mutatingRe.MatchString(m.Case.Orig) {
+			class = "mutating-conjunct"
+		} else if impureCallRe.MatchString(m.Case.Orig) {
 			class = "impure-operand"
 		} else if f.checker == "offBy1" {
 			if ix, ok := findFlagged(l, rets[f.c.fn], f.pos, f.checker, f.text).(*ast.IndexExpr); ok {
@@ -455,9 +541,10 @@ func runExprClaims(meta *common.Meta, seed int64, outDir string, n int) {
 	}
 }
 
-var outsideFragmentRe = regexp.MustCompile(`\b(ms|mi|mm|ma|pa|w|gxs|fa|mc|mc2|mf|mg|fmf|vv|it|val)\b`)
+var outsideFragmentRe = regexp.MustCompile(`\b(ms|mi|mm|ma|pa|w|gxs|fa|mc|mc2|mf|mg|fmf|vv|it|val|gn|bumpG|func)\b`)
 
 var impureCallRe = regexp.MustCompile(`\b(fi|gi|hi|fu|ff|hf|fs|fb|fbs|fxs|fmf|Next)\(`)
+var mutatingRe = regexp.MustCompile(`refill\(\)|bumpG\(\)|func\(\) bool`)
 
 // findFlagged locates the expression a diagnostic is about: the outermost node of the right kind starting at pos.
 func findFlagged(l *exprgen.Linted, root ast.Expr, pos token.Pos, checker, msg string) ast.Expr {
@@ -822,6 +909,10 @@ var nvrFamilies = []struct {
 		[]string{"w.flush()", "*w = wr{buf: []int{2}}", "func() { w.buf = []int{3} }()", "w.buf = append(w.buf, 1)"}},
 	{[]string{"gxs"}, "[]int", []string{"a++", "_ = hi(a)"}, []string{"setG()", "gxs = []int{2}", "func() { setG() }()"}},
 	{[]string{"mi"}, "myInts", []string{"b--"}, []string{"func() { mi = myInts{1} }()", "mi = append(mi, 2)"}},
+	// a pointer returned through an interface result: the nil pointer becomes a NON-nil interface value
+	{[]string{"pe"}, "error", []string{"a++"}, []string{"pe = &myE{}"}},
+	{[]string{"pe"}, "interface{}", []string{"a++"}, []string{"pe = &myE{}"}},
+	{[]string{"xs"}, "interface{}", []string{"a++"}, []string{"xs = []int{1}"}},
 }
 
 func runNilValReturn(meta *common.Meta, seed int64, outDir string) {
@@ -915,6 +1006,14 @@ func runNilValReturn(meta *common.Meta, seed int64, outDir string) {
 			}
 			text := "func() bool { if " + c.cond + " { " + pre + "return (" + l.Text(cond.X) + ") == nil }; return true }()"
 			dcs = append(dcs, &exprgen.DiffCase{ID: len(dcs), Kind: "expr", Orig: text, Expect: "true", Inputs: exprgen.Grid(rg, text, 40), Tag: c})
+			// "replace X with nil": the function's result as the caller sees it, before and after the replacement
+			if len(c.rets) == 1 && c.rets[0] == l.Text(cond.X) {
+				fn := func(ret string) string {
+					return "func() string { r := func() " + c.resT + " { if " + c.cond + " { " + pre + "return " + ret + " }; return " + c.final +
+						" }(); return fmt.Sprintf(\"%v|%t\", r, r == nil) }()"
+				}
+				dcs = append(dcs, &exprgen.DiffCase{ID: len(dcs), Kind: "expr", Orig: fn(c.rets[0]), New: fn("nil"), Inputs: exprgen.Grid(rg, text, 40), Tag: c})
+			}
 		}
 		// tie: only operands of the model's fragment (w.err / w.buf are struct fields)
 		xt, err := conv.Expr(cond.X)
@@ -966,6 +1065,13 @@ func runNilValReturn(meta *common.Meta, seed int64, outDir string) {
 		class := "unclassified"
 		if len(c.pre) > 0 {
 			class = "mutated-before-return"
+		}
+		if m.Case.Expect == "" {
+			// the suggested replacement changes what the caller gets
+			meta.Fail("C12/nilValReturn/typed-nil-in-interface",
+				fmt.Sprintf("nilValReturn: in `func() %s { if %s { return %s } ... }` replacing %s with nil changes the result: %s vs %s", c.resT, c.cond, c.rets[0], c.rets[0], m.Orig, m.New),
+				map[string]interface{}{"cond": c.cond, "result_type": c.resT, "input": m.Input, "original": m.Orig, "with_nil": m.New})
+			continue
 		}
 		meta.Fail("C12/nilValReturn/"+class, fmt.Sprintf("nilValReturn claims the returned %s is nil in `if %s { %s; return %s }`, but it is not nil at the return (%s)", c.x, c.cond, strings.Join(c.pre, "; "), strings.Join(c.rets, ", "), m.Orig),
 			map[string]interface{}{"cond": c.cond, "body": append(append([]string{}, c.pre...), "return "+strings.Join(c.rets, ", ")), "input": m.Input, "observed": m.Orig})
@@ -1104,4 +1210,142 @@ func runShadowed(meta *common.Meta, seed int64, outDir string) {
 			fmt.Sprintf("%s reports %q on `%s` where len/cap are user functions: observed %s", f.checker, f.text, f.expr, m.Orig),
 			map[string]interface{}{"expr": f.expr, "prologue": prologue, "message": f.text, "input": m.Input, "observed": m.Orig, "claimed": m.Case.Expect})
 	}
+}
+
+// ---------------------------------------------------------------- rule claims on boundary arguments
+
+// runSynthClaims: every pattern of the claim-producing rule groups, as executed (also patterns a change
+// adds), instantiated by the synthesiser; the claimed constant outcome is evaluated over the value domains
+// of the parameter types (invalid runes, invalid UTF-8, nil, empty, negative ...).
+func runSynthClaims(meta *common.Meta, outDir string) {
+	cases, hits, misses := valdiff.Collect(
+		func(g string, r ir.Rule) bool {
+			return (g == "sloppyLen" && strings.Contains(r.ReportTemplate, " is always ")) || (g == "offBy1" && strings.Contains(r.ReportTemplate, "always panics"))
+		}, 1500,
+		func(group string, w linter.Warning, l *exprgen.Linted) (token.Pos, token.Pos, string, string, bool) {
+			switch {
+			case strings.Contains(w.Text, "is always true"):
+				return 0, 0, "", "true", true
+			case strings.Contains(w.Text, "is always false"):
+				return 0, 0, "", "false", true
+			case strings.Contains(w.Text, "always panics"):
+				return 0, 0, "", "panic", true
+			}
+			return 0, 0, "", "", false
+		})
+	meta.Distribution["synth_claim_patterns_hit"] = hits
+	meta.Distribution["synth_claim_patterns_missed"] = misses
+	mm, evals, err := valdiff.Run(filepath.Join(outDir, "valdiff_claims"), cases)
+	if err != nil {
+		meta.Notes = append(meta.Notes, err.Error())
+		meta.TieBroken = append(meta.TieBroken, "claim value-domain program did not build (see notes)")
+		return
+	}
+	meta.Evaluations += evals
+	meta.Distribution["synth_claim_evaluations"] = evals
+	for _, m := range mm {
+		meta.Fail("C12/"+m.Case.Group+"/claim-false-on-boundary-argument",
+			fmt.Sprintf("%s reports %q, but `%s` (pattern %s) evaluates to %s on %s", m.Case.Group, m.Case.Message, m.Case.Expr, m.Case.Pattern, m.Orig, m.Input),
+			map[string]interface{}{"pattern": m.Case.Pattern, "expr": m.Case.Expr, "message": m.Case.Message, "arguments": m.Input, "observed": m.Orig, "claimed": m.Case.Expect})
+	}
+}
+
+// ---------------------------------------------------------------- caseOrder with type-parameter cases
+
+// runCaseOrderGeneric: type switches inside generic functions with a case that is the type parameter itself
+// (go/types gives it the constraint interface as underlying type).  Oracle only: every instantiation with a
+// type of the lattice is run on every dynamic value; a flagged case that is taken contradicts the claim.
+func runCaseOrderGeneric(meta *common.Meta, outDir string) {
+	type gsw struct {
+		constraint string
+		cases      []string
+		insts      []string // types satisfying the constraint
+	}
+	sws := []gsw{
+		{"I1", []string{"T", "T1"}, []string{"T1", "T2", "T4", "*P1"}},
+		{"I1", []string{"T", "T2", "T4"}, []string{"T1", "T2", "T4"}},
+		{"I1", []string{"T1", "T"}, []string{"T1", "T2"}},
+		{"I3", []string{"T", "T3", "nil"}, []string{"T3", "T4"}},
+		{"interface{}", []string{"T", "int", "T0"}, []string{"int", "string", "T0"}},
+		{"I1", []string{"T", "I2"}, []string{"T1", "T2"}},
+	}
+	var src strings.Builder
+	src.WriteString("package p\n" + latticeSrc)
+	for i, s := range sws {
+		fmt.Fprintf(&src, "func gsw%d[T %s](v interface{}) int {\n\tswitch v.(type) {\n", i, s.constraint)
+		for ci, c := range s.cases {
+			fmt.Fprintf(&src, "\tcase %s:\n\t\treturn %d\n", c, ci)
+		}
+		src.WriteString("\t}\n\treturn -1\n}\n")
+	}
+	l, err := exprgen.Load("gsw.go", src.String())
+	if err != nil {
+		panic(err)
+	}
+	ws, err := l.Run("caseOrder")
+	if err != nil {
+		panic(err)
+	}
+	type flag struct {
+		sw, arm int
+		text    string
+	}
+	var flags []flag
+	for _, w := range ws {
+		var i int
+		if _, err := fmt.Sscanf(l.FuncOf(w.Pos), "gsw%d", &i); err != nil {
+			continue
+		}
+		m := caseOrderRe.FindStringSubmatch(w.Text)
+		if m == nil {
+			continue
+		}
+		for ci, c := range sws[i].cases {
+			if c == m[1] {
+				flags = append(flags, flag{i, ci, w.Text})
+			}
+		}
+	}
+	meta.Distribution["caseorder_generic_flagged"] = len(flags)
+	if len(flags) == 0 {
+		return
+	}
+	var prog strings.Builder
+	prog.WriteString("package main\n\nimport \"fmt\"\n" + latticeSrc)
+	prog.WriteString(src.String()[strings.Index(src.String(), "func gsw0"):])
+	prog.WriteString("var vals = []interface{}{")
+	for _, v := range dynValues {
+		prog.WriteString(v.expr + ", ")
+	}
+	prog.WriteString("}\nfunc main() {\n\tfor vi, v := range vals {\n")
+	for _, f := range flags {
+		for _, inst := range sws[f.sw].insts {
+			fmt.Fprintf(&prog, "\t\tfmt.Println(%d, %d, %q, vi, gsw%d[%s](v))\n", f.sw, f.arm, inst, f.sw, inst)
+		}
+	}
+	prog.WriteString("\t}\n}\n")
+	dir := filepath.Join(outDir, "obs_caseorder_generic")
+	common.WriteFile(filepath.Join(dir, "main.go"), prog.String())
+	common.WriteFile(filepath.Join(dir, "go.mod"), "module obsgsw\n\ngo 1.21\n")
+	out, code, err := common.Run(5*time.Minute, dir, common.GoEnv(), "go", "run", ".")
+	if err != nil || code != 0 {
+		panic(fmt.Sprintf("generic caseOrder observation program failed: %v\n%s", err, out))
+	}
+	evals := 0
+	for _, line := range strings.Split(strings.TrimSpace(out), "\n") {
+		var sw, arm, vi, got int
+		var inst string
+		if _, err := fmt.Sscanf(line, "%d %d %s %d %d", &sw, &arm, &inst, &vi, &got); err != nil {
+			continue
+		}
+		evals++
+		if got == arm {
+			meta.Fail("C12/caseOrder/type-parameter-case",
+				fmt.Sprintf("caseOrder reports a case of `func [T %s](v interface{})` with cases %v as unreachable after `case T`, but instantiated with T=%s the value %s takes `case %s`",
+					sws[sw].constraint, sws[sw].cases, inst, dynValues[vi].expr, sws[sw].cases[arm]),
+				map[string]interface{}{"constraint": sws[sw].constraint, "cases": sws[sw].cases, "instantiation": inst, "value": dynValues[vi].expr})
+		}
+	}
+	meta.Evaluations += evals
+	meta.Distribution["caseorder_generic_observations"] = evals
 }
